@@ -61,7 +61,21 @@ func cmdCheck(args []string) {
 	verifDir := fs.String("verif", "/verif", "verif root")
 	noEvidence := fs.Bool("no-evidence", false, "do not write the evidence file")
 	verbose := fs.Bool("v", false, "verbose")
-	fs.Parse(args)
+	replaysFlag := fs.String("replays", "", "directory for replay files (default <verif>/replays)")
+	// allow "check C05 --tier quick": move leading positional arguments behind the flags
+	var pos, rest []string
+	for i := 0; i < len(args); i++ {
+		if strings.HasPrefix(args[i], "-") {
+			rest = append(rest, args[i])
+			if !strings.Contains(args[i], "=") && i+1 < len(args) && !strings.HasPrefix(args[i+1], "-") && args[i] != "-v" && args[i] != "--no-evidence" && args[i] != "-no-evidence" && args[i] != "--v" {
+				i++
+				rest = append(rest, args[i])
+			}
+		} else {
+			pos = append(pos, args[i])
+		}
+	}
+	fs.Parse(append(rest, pos...))
 	if fs.NArg() < 1 {
 		fmt.Fprintln(os.Stderr, "usage: govc check <property> [--tier quick|thorough]")
 		os.Exit(2)
@@ -81,6 +95,9 @@ func cmdCheck(args []string) {
 	violations := 0
 	var vioLines []string
 	replayDir := filepath.Join(*verifDir, "replays")
+	if *replaysFlag != "" {
+		replayDir = *replaysFlag
+	}
 	os.MkdirAll(replayDir, 0o755)
 	writeReplay := func(name string, content map[string]interface{}) string {
 		p := filepath.Join(replayDir, prop+"-"+sanitize(name)+".json")
